@@ -1,18 +1,19 @@
 """Source mutations used to demonstrate that each check can fail (development tool).
-Each entry: id, prop (or list), file (relative to the repo root), old, new, why."""
 
-MUTANTS = [
-    # ---- C08
-    dict(id="c08-disp-from-acc", prop="C08", file="eqsig/displacements.py",
-         old="displacement = cumulative_trapezoid(velocity, dx=dt, initial=0)",
-         new="displacement = cumulative_trapezoid(velocity, dx=dt, initial=0) * (1 + 1e-9)",
-         why="1e-9 relative drift in displacement"),
-    dict(id="c08-rect-shift", prop="C08", file="eqsig/displacements.py",
-         old="velocity[1:] = acceleration * dt  # computes the increments",
-         new="velocity[1:] = acceleration * dt  # computes the increments\n        velocity[1] = 0.5 * velocity[1]",
-         why="rectangle rule: first panel halved"),
-    dict(id="c08-peak-max", prop="C08", file="eqsig/im.py",
-         old='    """Calculates the peak absolute response"""\n    return max(abs(min(motion)), max(motion))\n\n\ndef calc_sir',
-         new='    """Calculates the peak absolute response"""\n    return max(abs(motion[0]), max(motion))\n\n\ndef calc_sir',
-         why="calc_peak ignores negative peaks after the first sample"),
-]
+Each entry: id, prop (or list of props), file (relative to the repo root), old, new, why.
+Per-property lists live in mutants_cNN.py (MUTANTS = [...]); this module merges them.
+"""
+import glob
+import importlib
+import os
+import sys
+
+_here = os.path.dirname(os.path.abspath(__file__))
+if _here not in sys.path:
+    sys.path.insert(0, _here)
+MUTANTS = []
+for _f in sorted(glob.glob(os.path.join(_here, "mutants_c*.py"))):
+    _m = importlib.import_module(os.path.basename(_f)[:-3])
+    MUTANTS.extend(_m.MUTANTS)
+_ids = [m["id"] for m in MUTANTS]
+assert len(_ids) == len(set(_ids)), "duplicate mutant ids"
